@@ -195,6 +195,13 @@ func (g *G) node(sc *scope, depth int, cfgFalse bool, inChoice bool) *Node {
 			keys = append(keys, &Node{Kind: "leaf", Name: "ak", Type: k2t})
 			n.Key = "k ak"
 		}
+		if g.Chance(1, 5, "keyprefix") {
+			// key names written with the module's own prefix
+			n.Key = sc.mod.Prefix + ":k"
+			if len(keys) > 1 {
+				n.Key += []string{" ak", " " + sc.mod.Prefix + ":ak"}[g.Pick(2, "key2prefix")]
+			}
+		}
 		n.Kids = append(keys, g.kids(sc, depth-1, cfgFalse || n.Config == "false")...)
 		if g.Chance(1, 3, "lsmin") {
 			n.Min = "1"
